@@ -113,6 +113,13 @@ def _optimize_operator_call_attr(  # pylint: disable=too-many-return-statements
     return node
 
 
+def _hoist_globals(names: set[str], body: list[ast.stmt]) -> list[ast.stmt]:
+    """Return `body` preceded by a single `global` statement declaring `names`."""
+    if not names:
+        return body
+    return [ast.Global(names=sorted(names)), *body]
+
+
 class PythonASTOptimizer(ast.NodeTransformer):
     __slots__ = ("_global_ctx",)
 
@@ -121,12 +128,18 @@ class PythonASTOptimizer(ast.NodeTransformer):
 
     @contextmanager
     def _new_global_context(self):
-        """Context manager which sets a new Python `global` context."""
+        """Context manager which sets a new Python `global` context and yields the set
+        of names declared `global` in that context."""
         self._global_ctx.append(set())
         try:
-            yield
+            yield self._global_ctx[-1]
         finally:
             self._global_ctx.pop()
+
+    @property
+    def _is_function_context(self) -> bool:
+        """Return True if the current `global` context is that of a function."""
+        return len(self._global_ctx) > 1
 
     @property
     def _global_context(self) -> set[str]:
@@ -165,14 +178,14 @@ class PythonASTOptimizer(ast.NodeTransformer):
 
     def visit_FunctionDef(self, node: ast.FunctionDef) -> ast.AST | None:
         """Eliminate dead code from function bodies."""
-        with self._new_global_context():
+        with self._new_global_context() as global_names:
             new_node = self.generic_visit(node)
         assert isinstance(new_node, ast.FunctionDef)
         return ast.copy_location(
             ast_FunctionDef(
                 name=new_node.name,
                 args=new_node.args,
-                body=_filter_dead_code(new_node.body),
+                body=_hoist_globals(global_names, _filter_dead_code(new_node.body)),
                 decorator_list=new_node.decorator_list,
                 returns=new_node.returns,
             ),
@@ -181,14 +194,14 @@ class PythonASTOptimizer(ast.NodeTransformer):
 
     def visit_AsyncFunctionDef(self, node: ast.AsyncFunctionDef) -> ast.AST | None:
         """Eliminate dead code from async function bodies."""
-        with self._new_global_context():
+        with self._new_global_context() as global_names:
             new_node = self.generic_visit(node)
         assert isinstance(new_node, ast.AsyncFunctionDef)
         return ast.copy_location(
             ast_AsyncFunctionDef(
                 name=new_node.name,
                 args=new_node.args,
-                body=_filter_dead_code(new_node.body),
+                body=_hoist_globals(global_names, _filter_dead_code(new_node.body)),
                 decorator_list=new_node.decorator_list,
                 returns=new_node.returns,
             ),
@@ -204,6 +217,12 @@ class PythonASTOptimizer(ast.NodeTransformer):
         `global` statement are redundant, the entire node will be omitted."""
         new_names = set(node.names) - self._global_context
         self._global_context.update(new_names)
+        if self._is_function_context:
+            # Python requires the declaration to precede every use of the name in the
+            # function, including uses in statements generated before the `def` form
+            # that declares it, so function-level declarations are removed here and
+            # emitted together at the top of the function body
+            return None
         return (
             ast.copy_location(ast.Global(names=list(new_names)), node)
             if new_names
